@@ -17,8 +17,10 @@ SPEC = dict(
     workers=16,
     deadline={"quick": 420, "thorough": 2700},
     rule="a case = (history, statement, call): every op sequence over the alphabet {write batches into the memtable, "
-         "'write + flush' macro ops, level compaction, full compaction, out-of-order merge, clean reopen} up to the depth bound "
-         "(no-op steps pruned) is run on a fresh shard; in every state every statement {count,sum,mean,min,max,first,last} x "
+         "'write + flush' macro ops, level compaction (record-based and forced streaming), full compaction, out-of-order merge, "
+         "flush + clean reopen} up to the depth bound (quick: 12 ops, length <= 3; thorough: 25 ops, length <= 3, plus the quick "
+         "alphabet to length 4; no-op steps pruned) is run on a fresh shard; in every state every statement "
+         "{count,sum,mean,min,max,first,last} x "
          "{f float, i int, s string (count/first/last)} x time range {unbounded, every [t_a,t_b] over the 4 stored timestamps "
          "(+ before/after in the full set)} x variant {plain, exact_statistic_query hint, field filter f>0, GROUP BY host, "
          "GROUP BY time(2s|1s|3s), ORDER BY time DESC, all calls of a field in one statement, and combinations in the full set} "
